@@ -1,6 +1,6 @@
 """C11 - tokenizing is lossless, total and faithful to character classes.
 
-Space: every string of length <= N over a 26-character alphabet (one or two representatives of every
+Space: every string of length <= N over a 27-character alphabet (one or two representatives of every
 character class the property names, the three aliases, blanks, and two unsupported characters), in both
 padding modes.  Oracle: the reference lexer O-lex."""
 from .. import par, watchdog
@@ -10,7 +10,7 @@ from ..oracle import reflex
 
 LEVEL = "exploration"
 ALPHABET = ["0", "7", ".", "x", "s", "g", "n", "A", "S", "+", "-", "*", "/", "^", "!", "=", "(", ")", "[", "]",
-            " ", "\t", "\n", "–", "#", "é"]
+            " ", "\t", "\n", "–", "#", "é", "\xa0"]
 BOUND = {"quick": 4, "thorough": 5}
 
 
@@ -39,9 +39,14 @@ def _observe(tok, text):
 
 
 def check_history(texts, keep):
-    """one long-lived tokenizer: every call must answer as a fresh tokenizer does"""
+    """one long-lived tokenizer: every call must answer as a fresh tokenizer does.  An entry ('flip',) toggles
+    the public exclude_padding attribute of the live object between calls."""
     tok = _tokenizer(keep)
     for i, t in enumerate(texts):
+        if isinstance(t, (tuple, list)):
+            keep = not keep
+            tok.exclude_padding = not keep
+            continue
         got = _observe(tok, t)
         want = _observe(_tokenizer(keep), t)
         if got != want:
@@ -76,6 +81,11 @@ def _work_hist(task):
                 for kind, detail in check_history([a, b], keep):
                     acc.violation(f"{kind}|{a!r} ; {b!r}|padding={'kept' if keep else 'dropped'}",
                                   {"texts": [a, b], "keep": keep, "kind": kind}, detail)
+                if len(a) <= 1 or len(b) <= 1:
+                    acc.count("histories")
+                    for kind, detail in check_history([a, ("flip",), b], keep):
+                        acc.violation(f"{kind}|{a!r} ; flip padding mode ; {b!r}|padding={'kept' if keep else 'dropped'}",
+                                      {"texts": [a, ["flip"], b], "keep": keep, "kind": kind}, detail)
     return acc
 
 
@@ -206,8 +216,12 @@ def run(tier, seed):
 
 def replay(case):
     if case.get("kind") == "result-depends-on-earlier-calls":
-        a, b = case["texts"]
         keep = case["keep"]
+        if len(case["texts"]) == 3:
+            a, _, b = case["texts"]
+            return [(f"{k}|{a!r} ; flip padding mode ; {b!r}|padding={'kept' if keep else 'dropped'}", d)
+                    for k, d in check_history([a, ("flip",), b], keep)]
+        a, b = case["texts"]
         return [(f"{k}|{a!r} ; {b!r}|padding={'kept' if keep else 'dropped'}", d) for k, d in check_history([a, b], keep)]
     if case.get("kind") == "padding-modes-disagree":
         from mathy_core.tokenizer import TOKEN_TYPES
